@@ -109,7 +109,23 @@ func randXMPDate(r *core.Rng) (string, time.Time) {
 		d.Y += 1000
 	}
 	base := fmt.Sprintf("%04d-%02d-%02dT%02d:%02d:%02d", d.Y, d.M, d.D, d.h, d.m, d.s)
-	switch r.Intn(4) {
+	switch r.Intn(6) {
+	case 4, 5:
+		// fractional seconds of 1..7 digits together with a zone designator
+		nd := r.Range(1, 7)
+		f := r.Intn(pow10(nd))
+		frac := fmt.Sprintf("%0*d", nd, f)
+		ns := f * pow10(9-nd)
+		if r.Bool() {
+			return base + "." + frac + "Z", time.Date(d.Y, time.Month(d.M), d.D, d.h, d.m, d.s, ns, time.UTC)
+		}
+		hh, mm := r.Range(0, 14), r.Pick(0, 0, 30, 45)
+		sign, sc := 1, "+"
+		if r.Bool() {
+			sign, sc = -1, "-"
+		}
+		off := sign * (hh*3600 + mm*60)
+		return fmt.Sprintf("%s.%s%s%02d:%02d", base, frac, sc, hh, mm), time.Date(d.Y, time.Month(d.M), d.D, d.h, d.m, d.s, ns, time.FixedZone("", off))
 	case 0:
 		return base, time.Date(d.Y, time.Month(d.M), d.D, d.h, d.m, d.s, 0, time.UTC)
 	case 1:
@@ -594,4 +610,12 @@ func (rec *XMPRec) Serialise(r *core.Rng, st XMPStyle, forceForm int) []byte {
 		sb.WriteString(strings.Repeat(" ", 20) + st.NL + "<?xpacket end=" + q + "w" + q + "?>")
 	}
 	return []byte(sb.String())
+}
+
+func pow10(n int) int {
+	p := 1
+	for ; n > 0; n-- {
+		p *= 10
+	}
+	return p
 }
